@@ -206,7 +206,39 @@ fn mulmod(a: u128, b: u128, q: u128) -> u128 {
     (a % q) * (b % q) % q
 }
 
+/// SDDs over 17-20 variables (vtree indices beyond 32): parity-like functions built with xor / and / or under an even-split or
+/// right-linear vtree; every decision node is reached through both polarities; finite-field count and evaluate against the
+/// structural truth table (2^n assignments)
+fn run_sddbig(c: &Value) -> CaseResult {
+    let nv = c["nvars"].as_u64().unwrap_or(17) as usize;
+    let order: Vec<VarLabel> = (0..nv).map(|i| VarLabel::new(i as u64)).collect();
+    let vt = if c["shape"].as_u64().unwrap_or(0) == 0 { VTree::even_split(&order, 2) } else { VTree::right_linear(&order) };
+    let b = CompressionSddBuilder::new(vt);
+    let step = c["step"].as_u64().unwrap_or(1) as usize;
+    let mut f = b.var(VarLabel::new(0), true);
+    for i in 1..nv {
+        let x = b.var(VarLabel::new(i as u64), true);
+        f = if i % step == 0 && step > 1 { b.and(f, b.or(x, b.negate(f))) } else { b.xor(f, x) };
+    }
+    let h: Vec<u128> = (0..nv).map(|i| (c["seed"].as_u64().unwrap_or(7) as u128 * 2654435761 + 97 * i as u128 * i as u128 + 13) % P).collect();
+    let w: Vec<(u128, u128)> = h.iter().map(|x| ((P + 1 - x) % P, *x)).collect();
+    for (what, d) in [("f", f), ("!f", b.negate(f))] {
+        let nm = 1usize << nv;
+        let mut want = 0u128; let mut models = 0usize;
+        let mut a = vec![false; nv];
+        for m in 0..nm {
+            for i in 0..nv { a[i] = (m >> i) & 1 == 1; }
+            if seval(d, &a) { models += 1; let mut x = 1u128; for i in 0..nv { x = x * (if a[i] { w[i].1 } else { w[i].0 }) % P; } want = (want + x) % P; }
+        }
+        let got = d.unsmoothed_wmc(&ff_params(nv, &w)).value();
+        if got != want { return Err(format!("SDD {what} over {nv} variables ({models} models): weighted count {got}, the sum over the models is {want}")); }
+        for k in 0..64usize { let m = (k * 2654435761usize) % nm; for i in 0..nv { a[i] = (m >> i) & 1 == 1; } if d.evaluate(&a) != seval(d, &a) { return Err(format!("SDD {what} over {nv} variables: evaluate({a:?}) is {}, the diagram denotes {}", d.evaluate(&a), seval(d, &a))); } }
+    }
+    Ok(())
+}
+
 pub fn run(c: &Value) -> CaseResult {
+    if c["kind"].as_str() == Some("sddbig") { return run_sddbig(c); }
     if c["kind"].as_str() == Some("semhash") {
         return match c["prime"].as_u64().unwrap_or(0) { 0 => run_semhash::<{ primes::U32_TINY }>(c), 1 => run_semhash::<{ primes::U32_SMALL }>(c), _ => run_semhash::<{ primes::U64_LARGEST }>(c) };
     }
@@ -268,6 +300,7 @@ pub fn run(c: &Value) -> CaseResult {
 
 pub fn candidates(seed: u64) -> Vec<Value> {
     let mut out = vec![];
+    for (nv, shape, step) in [(17u64, 0u64, 1u64), (18, 0, 1), (17, 1, 1), (19, 0, 5), (20, 0, 1)] { out.push(json!({"case": "wmc", "kind": "sddbig", "nvars": nv, "shape": shape, "step": step, "seed": seed % 1000})); }
     let mut s = seed.wrapping_add(90210);
     let mut nx = |n: u64| { s = s.wrapping_mul(6364136223846793005).wrapping_add(1442695040888963407); (s >> 33) % n };
     let vt3 = [json!([[0, 1], 2]), json!([0, [1, 2]]), json!([[2, 0], 1]), json!([1, [2, 0]])];
